@@ -5,6 +5,11 @@ ROOT = os.path.join(os.path.dirname(os.path.abspath(__file__)), "..")
 props = [json.loads(l) for l in open(os.path.join(ROOT, "properties.jsonl")) if l.strip()]
 
 CLAIMS = {
+    "C06": dict(
+        text="PARTIAL. Lean 4 theorem Bp7.C06.decode_no_panic: for EVERY byte string the model of Bundle::try_from(&[u8]) — a model of serde_cbor's visitor-driven parser with its u8 depth counter that is not restored on the 'recursion limit exceeded' return, and of EndpointID's visitor that swallows that error and carries on — returns a bundle or an error, never a panic: every reader is entered with a counter >= 1 (compositional Safe/Good invariant over all ~35 readers, incl. nested from_slice for block data); decode_admin_no_panic for payloads read as administrative records. The operations a receiving node performs on a decoded bundle are total functions in the model because the fixed Rust code only uses total operations there (saturating/checked/u128 arithmetic, unwrap_or) — the pinned-tree panics are kept as witnesses (dtnNodeNamePinned, unhexifyPinned, hop count 255, …) and the number of explicit panic sites per module is re-extracted and pinned on every run. Tie to the code: all byte strings of <= 2 bytes (quick) / <= 3 bytes (thorough) and structure-aware mutants (item substitution from a dictionary, truncation, duplication, deletion, type confusion, length tampering, bit flips, splices, depth probes around the 128-level limit) go through the real decoder and the model (ok/err/panic and decoded value compared); on what decodes, validate / id / payload / previous_node / crc_valid / to_cbor / update_extensions / add_canonical_block results are compared as well and ~20 further receive-path calls run under catch_unwind; in two build profiles (overflow checks on and off).",
+        note="NOT exhibited by the model: actual stack overflow and allocator failure. They are bounded by construction only: recursion is bounded by serde_cbor's counter (<= 128 nested frames, which the model shares), and the decoder copies byte/text strings already present in the input; the 1 MiB cautious pre-allocation of serde for Vec<BundleStatusItem> and the 4096-byte cap of serde_bytes are not modelled (no allocation meter was built). Trusted: Lean kernel; axioms propext, Classical.choice, Quot.sound; catch_unwind reports panics faithfully; 64-bit usize.",
+        technique="Lean 4 proof (compositional no-panic invariant over the decoder model) + differential fuzz-style correspondence in two build profiles",
+        design="§6 C06"),
     "C05": dict(
         text="Lean 4 theorems: crc16_window / crc32c_window — for EVERY message, position and replacement pattern, two byte strings that differ only inside a window of at most 2 (CRC-16/X.25) resp. 4 (CRC-32C) consecutive bytes have different checksums; single-bit flips as the one-byte case (crc*_bitflip). Proof: the reflected bit step is GF(2)-linear (crcBit_xor) and, the polynomial having its top bit set, a non-zero difference of two runs cannot vanish within the next w/8 bytes nor afterwards (diff_survives, diff_persists), plus a 255-row table per width checked in the kernel. Block level: a block whose zeroed-CRC re-encoding differs from a verifying block's only inside such a window with the same stored CRC fails check_crc (primary_corruption_detected_16), a changed CRC value alone fails it (crc_value_change_detected), uncorrupted and CRC-less blocks pass. Tie to the code: for generated bundles with CRC-16/32 on all blocks EVERY bit position of every block is flipped, every byte-aligned window gets replacement patterns (exhaustive 2-byte patterns in thorough), CRC values are overwritten; the real decoder + crc_valid outcome class is compared with the model's, and 'valid and different' inside the alarm condition is the failure.",
         note="The bundle-level statement (decode of corrupted bytes, same block ranges, re-encoding equals received bytes) is covered by the correspondence run and by the block-level theorems, not by one bundle-level theorem; canonical-block and CRC-32 variants of the block-level theorem follow the same proof and are not all spelled out. Trusted: Lean kernel; axioms propext, Classical.choice, Quot.sound; model CRC = crc crate (correspondence).",
